@@ -343,6 +343,29 @@ where
                     acc.violate(format!("sel:clamp-tie:{}", tname), format!("clamp on {} with the real part exactly on the {} bound: result {:?}, the unclamped operand is {:?}", tname, if on_lower { "lower" } else { "upper" }, g, p(&xt)), case());
                 }
             }
+            // clamp with a NaN among value and bounds: the float evaluation (`x < lo`, `x > hi`, both false
+            // for NaN) decides which operand comes back, with its own derivative parts
+            {
+                let which = ci % 3;
+                let (mut sv, mut sl, mut sh) = (sx.clone(), sy.clone(), sz.clone());
+                if sl[0] > sh[0] {
+                    std::mem::swap(&mut sl, &mut sh);
+                }
+                match which {
+                    0 => sv[0] = f64::NAN,
+                    1 => sl[0] = f64::NAN,
+                    _ => sh[0] = f64::NAN,
+                }
+                let (xv, lo, hi): (T, T, T) = (build_all(&shape, &sv), build_all(&shape, &sl), build_all(&shape, &sh));
+                let (xvf, lof, hif): (T::F, T::F, T::F) = (f_of::<T>(sv[0]), f_of::<T>(sl[0]), f_of::<T>(sh[0]));
+                let want = if xvf < lof { p(&lo) } else if xvf > hif { p(&hi) } else { p(&xv) };
+                let g = p(&RealField::clamp(xv.clone(), lo.clone(), hi.clone()));
+                let fl = fv(RealField::clamp(xvf, lof, hif));
+                acc.observe(&format!("sel:clamp-with-NaN-{}|{}", ["value", "lower-bound", "upper-bound"][which as usize], tname), true);
+                if !eqv(&g, &want) || !(g[0] == fl || (g[0].is_nan() && fl.is_nan())) {
+                    acc.violate(format!("sel:clamp-nan:{}", tname), format!("clamp on {} with a NaN {}: result {:?}, the float evaluation selects {:?} (float result {:e})", tname, ["value", "lower bound", "upper bound"][which as usize], g, want, fl), json!({"type": tname, "value": floats(&sv), "lo": floats(&sl), "hi": floats(&sh)}));
+                }
+            }
             // argument / to_polar / abs / signum style methods at a real part of exactly +0 and -0
             for z0 in [0.0f64, -0.0] {
                 let mut s0 = sx.clone();
@@ -352,6 +375,14 @@ where
                 acc.observe(&format!("argument-at-{}0|{}", if z0.is_sign_negative() { "-" } else { "+" }, tname), true);
                 let (ga, fa) = (p(&ComplexField::argument(x0.clone())), fv(ComplexField::argument(x0f)));
                 let (gp, fp) = (p(&ComplexField::to_polar(x0.clone()).1), fv(ComplexField::to_polar(x0f).1));
+                // ComplexField::signum (used by nalgebra's eigen solvers for their shift): the float's value
+                let (gs, fs) = (p(&ComplexField::signum(x0.clone())), fv(ComplexField::signum(x0f)));
+                // (at -0.0 the float says -1 by its sign bit while the dual types say +1 through `self >= 0`:
+                // a convention at the discontinuity, not judged; what matters to callers is a unit sign)
+                let sign_ok = if z0.is_sign_negative() { gs[0].abs() == 1.0 } else { gs[0] == fs };
+                if !sign_ok {
+                    acc.violate(format!("signum-at-zero:{}", tname), format!("ComplexField::signum on {} at real part {:?}: real part {:e}, the float gives {:e}", tname, z0, gs[0], fs), json!({"type": tname, "real_part": format!("{:?}", z0)}));
+                }
                 if ga[0].to_bits() != fa.to_bits() || gp[0].to_bits() != fp.to_bits() || ga[1..].iter().any(|v| *v != 0.0) {
                     acc.violate(format!("argument-at-zero:{}", tname), format!("argument / to_polar on {} at real part {:?}: {:?} / {:?}, the float gives {:e} / {:e}", tname, z0, ga, gp, fa, fp), json!({"type": tname, "real_part": format!("{:?}", z0)}));
                 }
